@@ -255,7 +255,8 @@ class DBGen:
             gsym = rng.choice(["cur", "cur", "stale", "future"])
             self.add(op=kind, tx=tx, t=t, obj=o, guard=0, gsym=gsym, w=0)
             return kind
-        if r < p_guarded + 0.45:
+        p_ins = 0.33 if self.mode in ("c01", "c02") else 0.45    # more Modify in the snapshot/abort families
+        if r < p_guarded + p_ins:
             w = self.chan() if watch and rng.random() < 0.4 and locked else 0
             self.add(op="insert", tx=tx, t=t, obj=o, guard=0, gsym="", w=w)
             self.live[t].add(pi)
